@@ -1,9 +1,9 @@
 """property id -> rules, explanation of what is / is not decided"""
-from rules import r_hist, r_lock, r_errdrop, r_coord, r_keyid, r_opcode, r_doaction, r_cancel, r_idle, r_loop, r_traverse, r_repeat, r_chv2, r_wait, r_macro, r_seq, r_override, r_reload, r_pipeline, r_dynmacro, r_vkey, r_layers, r_panic, r_prodcons, r_span, r_rec, r_evict, r_coordspace, r_loopvar, r_depth, r_countdown, r_accessor, r_scratch, r_sticky, r_buildall, r_tickorder, r_custom, r_statesorder, r_srckeys, r_iterwhole, r_boolshort
+from rules import r_hist, r_lock, r_errdrop, r_coord, r_keyid, r_opcode, r_doaction, r_cancel, r_idle, r_loop, r_traverse, r_repeat, r_chv2, r_wait, r_macro, r_seq, r_override, r_reload, r_pipeline, r_dynmacro, r_vkey, r_layers, r_panic, r_prodcons, r_span, r_rec, r_evict, r_coordspace, r_loopvar, r_depth, r_countdown, r_accessor, r_scratch, r_sticky, r_buildall, r_tickorder, r_custom, r_statesorder, r_srckeys, r_iterwhole, r_boolshort, r_argnames, r_nametable
 
 PROPS = {
     "C01": {
-        "rules": [r_coord.run, r_doaction.rule_state_push, r_cancel.run, r_cancel.rule_owed, r_chv2.rule_rel, r_evict.run, r_countdown.run, r_tickorder.rule_wait_gate, r_cancel.rule_retain_all, r_tickorder.rule_queue_trans, r_custom.run, r_scratch.run],
+        "rules": [r_coord.run, r_doaction.rule_state_push, r_cancel.run, r_cancel.rule_owed, r_chv2.rule_rel, r_evict.run, r_countdown.run, r_tickorder.rule_wait_gate, r_cancel.rule_retain_all, r_tickorder.rule_queue_trans, r_custom.run, r_scratch.run, r_macro.rule_evicted_release, r_nametable.run, r_custom.rule_fold_acc, r_idle.run_only("Kanata", "Layout", "OneShotState", "ChordsV2", "ActiveChord", "WaitingState", "SequenceState", "OverrideStates", "ScrollState", "MoveMouseState", "MoveMouseAccelState", "CapsWordState", "DynamicMacroReplayState")],
         "explanation": "Decides structural clauses of 'no stuck output': (R-COORD) every State variant created at a "
                        "coordinate is removable by Release at that coordinate and the three coordinate predicates agree; "
                        "(R-STATE-PUSH) arms of do_action that create coordinate-keyed state do so on every path and the custom "
@@ -11,7 +11,7 @@ PROPS = {
         "not_decided": "bounded-time liveness over all histories; diff logic prev_keys/cur_keys; timeout arithmetic",
     },
     "C02": {
-        "rules": [r_panic.run_rt, r_prodcons.run, r_rec.run_rt, r_coordspace.run, r_lock.run, r_opcode.run_all, r_loopvar.run_rt, r_tickorder.rule_rpt_order, r_tickorder.rule_rpt_queue, r_tickorder.rule_queue_trans, r_srckeys.run],
+        "rules": [r_panic.run_rt, r_prodcons.run, r_rec.run_rt, r_coordspace.run, r_lock.run, r_opcode.run_all, r_loopvar.run_rt, r_tickorder.rule_rpt_order, r_tickorder.rule_rpt_queue, r_tickorder.rule_queue_trans, r_srckeys.run, r_depth.run],
         "explanation": "Decides: (R-PANIC/rt) every panic-capable site (bounds check, slice/Vec index, unsigned subtraction, narrow "
                        "addition/multiplication, negation, division, shift, unwrap/expect, assert!/unreachable!/panic!) in the "
                        "functions reachable from the event/tick entry points is either discharged by the guard data-flow (constant "
@@ -54,7 +54,7 @@ PROPS = {
                        "char-boundary safety of span slicing beyond the reviewed lexer invariant",
     },
     "C04": {
-        "rules": [r_coord.run, r_doaction.rule_state_push, r_layers.rule_fill, r_layers.rule_press_dedup, r_doaction.rule_state_clear, r_buildall.run_for("C04"), r_pipeline.run_cfg_mirror, r_cancel.rule_retain_all, r_pipeline.run_layer_lists],
+        "rules": [r_coord.run, r_doaction.rule_state_push, r_layers.rule_fill, r_layers.rule_press_dedup, r_doaction.rule_state_clear, r_buildall.run_for("C04"), r_pipeline.run_cfg_mirror, r_cancel.rule_retain_all, r_pipeline.run_layer_lists, r_nametable.run_consts],
         "explanation": "Narrow: (R-FILL) the default fill of unassigned layer positions is decided from block-unmapped-keys and the "
                        "key only, never from the layer index, and position 0 is forced to NoOp; decides the release half of layered remapping — every state a press creates is keyed on the "
                        "coordinate (never the layer) and removed by Release at that coordinate (R-COORD); the key / layer / custom "
@@ -63,7 +63,7 @@ PROPS = {
                        "millisecond — functions of run-time values",
     },
     "C05": {
-        "rules": [r_wait.run_all, r_evict.run_c05, r_tickorder.rule_wait_gate, r_tickorder.rule_tick_together, r_wait.rule_lookahead],
+        "rules": [r_wait.run_all, r_evict.run_c05, r_tickorder.rule_wait_gate, r_tickorder.rule_tick_together, r_wait.rule_lookahead, r_traverse.run_rebuild, r_wait.rule_slot_index, r_countdown.rule_nowrap, r_idle.run_only("WaitingState", "TapDanceEagerState", "LastPressTracker")],
         "explanation": "Decides: (R-WAIT) each waiting_into_hold/tap/timeout clears its slot on every path before do_action (a "
                        "decision is consumed once) and performs an action whose provenance is exactly the hold / tap / "
                        "timeout_action field; Layout::tick and process_extra_waitings dispatch the four WaitingAction variants to "
@@ -74,7 +74,7 @@ PROPS = {
                        "keys — value-level",
     },
     "C06": {
-        "rules": [r_doaction.rule_osh_arms, r_doaction.rule_osh_repress, r_evict.run_c06, r_countdown.run, r_custom.run, r_doaction.rule_osh_end, r_iterwhole.run_for("C06")],
+        "rules": [r_doaction.rule_osh_arms, r_doaction.rule_osh_repress, r_evict.run_c06, r_countdown.run, r_custom.run, r_doaction.rule_osh_end, r_iterwhole.run_for("C06"), r_countdown.rule_nowrap, r_idle.run_only("OneShotState")],
         "explanation": "Decides: every arm of do_action (21 Action variants) notifies the one-shot state machine of the press, "
                        "delegates to an inner action, or defers the action (R-OSH-ARMS); macro Press/Tap events notify too. (R-COUNTDOWN) the "
                        "one-shot timeout, like every count-down timer on the tick path, expires on its level: it is never decremented "
@@ -97,7 +97,7 @@ PROPS = {
                        "output characters are trusted to the parser's character table",
     },
     "C07": {
-        "rules": [r_idle.run, r_idle.run_keytiming, r_loop.run, r_idle.run_states, r_scratch.run, r_tickorder.rule_loop_ms, r_idle.run_snapshot],
+        "rules": [r_idle.run, r_idle.run_keytiming, r_loop.run, r_idle.run_states, r_scratch.run, r_tickorder.rule_loop_ms, r_idle.run_snapshot, r_idle.run_zch_variant, r_countdown.rule_nowrap],
         "explanation": "Decides: (R-IDLE) every (type, field) of kanata's run-time state that has a self-dependent scalar update "
                        "(counter/timer) or loses elements in a function reachable from Kanata::tick_ms is read as a whole by "
                        "is_idle / can_block_update_idle_waiting (transitively), is covered by a container those read, or is listed "
@@ -118,7 +118,7 @@ PROPS = {
                        "(see C01/C02 R-EVICT) — run-time values",
     },
     "C09": {
-        "rules": [r_traverse.run_chords, r_chv2.run_all, r_buildall.run_for("C09"), r_traverse.run_rebuild, r_iterwhole.run_for("C09"), r_chv2.rule_truncated],
+        "rules": [r_traverse.run_chords, r_chv2.run_all, r_buildall.run_for("C09"), r_traverse.run_rebuild, r_iterwhole.run_for("C09"), r_chv2.rule_truncated, r_idle.run_only("ChordsV2", "ActiveChord")],
         "explanation": "Narrow: (R-CHV2-REL) v2: release bookkeeping dominates every wholesale removal from the v2 queue, active "
                        "chords leave only via clear_released_chords which queues their virtual Release; (R-CHV2-DISABLED) every "
                        "chord-selecting lookup in process_presses filters on disabled layers (sibling agreement); (R-CH1-GUARD) v1: "
@@ -128,7 +128,7 @@ PROPS = {
         "not_decided": "exact-set activation, press-order independence, decomposition order, v2 candidate search — run-time values",
     },
     "C12": {
-        "rules": [r_seq.run_all, r_buildall.run_for("C12"), r_pipeline.run_cfg_mirror],
+        "rules": [r_seq.run_all, r_buildall.run_for("C12"), r_pipeline.run_cfg_mirror, r_argnames.run_twins, r_argnames.run, r_idle.run_only("SequenceState")],
         "explanation": "Decides: (R-SEQ-CONFLICT) the only Trie::insert of the sequence table is dominated by ancestor_exists and "
                        "descendant_exists on the same key sequence, each with its true edge leading away from the insert; "
                        "(R-SEQ-BITS) key-code / modifier / overlap bit fields are disjoint and every modifier mask is a distinct "
@@ -138,7 +138,7 @@ PROPS = {
         "not_decided": "exactly-once firing, backtracking, timeout boundary, permutations of overlap groups — run-time values",
     },
     "C13": {
-        "rules": [r_override.run_all, r_buildall.run_for("C13"), r_idle.run_snapshot],
+        "rules": [r_override.run_all, r_buildall.run_for("C13"), r_idle.run_snapshot, r_idle.run_only("OverrideStates")],
         "explanation": "Narrow: (R-OVR-SCRATCH) in override_keys the scratch reset dominates every use of the scratch and the "
                        "no-overrides early return precedes every mutation; (R-OVR-MODS) mask_for_key returns Some for exactly the "
                        "keys OsCode::is_modifier accepts and the eight masks are distinct single bits; (R-OVR-BOTH) the tick path "
@@ -159,7 +159,7 @@ PROPS = {
                        "scroll states, recorded macros is deliberately retained); file index selection arithmetic",
     },
     "C16": {
-        "rules": [r_pipeline.run, r_pipeline.run_template, r_pipeline.run_vars, r_pipeline.run_layer_lists, r_sticky.run, r_pipeline.run_rawmatch, r_buildall.run_for("C16"), r_span.rule_own_text],
+        "rules": [r_pipeline.run, r_pipeline.run_template, r_pipeline.run_vars, r_pipeline.run_layer_lists, r_sticky.run, r_pipeline.run_rawmatch, r_buildall.run_for("C16"), r_span.rule_own_text, r_pipeline.run_vars_passed],
         "explanation": "Narrow: decides the ordering preconditions of transparent indirection — the pre-processing stages are chained "
                        "include -> platform -> env -> template, each consuming the previous stage's result (data-flow order of the "
                        "and_then chain), parse_vars runs after pre-processing and dominates every parser that (transitively) "
@@ -168,7 +168,7 @@ PROPS = {
                        "(e.g. simultaneous vs sequential parameter substitution) — relations between two programs",
     },
     "C14": {
-        "rules": [r_traverse.run_repeat, r_repeat.run_outputs, r_repeat.run, r_repeat.run_collect, r_scratch.run, r_buildall.run_for("C14"), r_keyid.rule_gate, r_repeat.run_scan, r_repeat.rule_kc_output, r_seq.rule_hidden],
+        "rules": [r_traverse.run_repeat, r_repeat.run_outputs, r_repeat.run, r_repeat.run_collect, r_scratch.run, r_buildall.run_for("C14"), r_keyid.rule_gate, r_repeat.run_scan, r_repeat.rule_kc_output, r_seq.rule_hidden, r_argnames.run],
         "explanation": "Decides: the repeat-table builder passes every nested action of every Action variant (derived from the "
                        "type) to its recursion and records every key-code-bearing variant (R-TRAVERSE, R-RPT-TABLE); in "
                        "handle_repeat_actual every write of a repeat is reachable only through a 'key currently held' test, at "
@@ -177,7 +177,7 @@ PROPS = {
         "not_decided": "which of several output keys is preferred; layer search order — run-time values",
     },
     "C10": {
-        "rules": [r_opcode.run_all, r_doaction.rule_fork_keys, r_hist.run, r_accessor.run, r_buildall.run_for("C10"), r_traverse.run_rebuild, r_boolshort.run],
+        "rules": [r_opcode.run_all, r_doaction.rule_fork_keys, r_hist.run, r_accessor.run, r_buildall.run_for("C10"), r_traverse.run_rebuild, r_boolshort.run, r_idle.run_keytiming],
         "explanation": "Decides the encoding layer of switch and what it is evaluated over: (R-ACCESSOR) State::coord / State::keycode, "
                        "which feed the `input` and key conditions, return Some for every State variant that has the field; (a) the opcode tag constants partition u16 (evaluated constants); "
                        "(b) every OpCode constructor's tag and bit-fields are decoded by opcode_type into the OpCodeType variant its "
@@ -189,7 +189,7 @@ PROPS = {
                        "compression numerics — these are functions of run-time values",
     },
     "C18": {
-        "rules": [r_vkey.run_all, r_coord.run, r_macro.rule_seq_custom, r_buildall.run_for("C18"), r_idle.run_idle_counter],
+        "rules": [r_vkey.run_all, r_coord.run, r_macro.rule_seq_custom, r_buildall.run_for("C18"), r_idle.run_idle_counter, r_nametable.run, r_countdown.rule_nowrap, r_idle.run_only("Kanata")],
         "explanation": "Narrow: (R-VK-SINGLE) FakeKeyAction is interpreted only in handle_fakekey_action, which every trigger path "
                        "(key press, key release, on-idle, TCP) calls, and each of press/release/tap/toggle produces layout events; "
                        "(R-COORD) toggle's 'is it pressed' predicate covers exactly the State variants that carry a coordinate; "
@@ -198,7 +198,7 @@ PROPS = {
         "not_decided": "D-1/D/D+1 timing of hold-for-duration and on-idle; idle measurement — run-time values",
     },
     "C19": {
-        "rules": [r_dynmacro.run_all, r_dynmacro.rule_delay_reset, r_dynmacro.rule_save_id],
+        "rules": [r_dynmacro.run_all, r_dynmacro.rule_delay_reset, r_dynmacro.rule_save_id, r_dynmacro.rule_replay_arms, r_idle.run_only("DynamicMacroReplayState", "DynamicMacroRecordState")],
         "explanation": "Decides: (R-DM-RELEASE) in record_press / begin_record_macro / stop_macro every returned recording is "
                        "dominated by add_release_for_all_unreleased_presses and nothing that writes macro_items runs between that "
                        "call and the return; (R-DM-REC) in play_macro every queueing of replay items is dominated by inserting the "
